@@ -31,7 +31,10 @@
 //!   F1-attr-value-gt-text-mode, F2-self-closing-foreign-root, F11-foreign-root-inside-foreign,
 //!   F12-integration-point-named-end-tag            — known shapes (see docs/pkg-ref.md)
 //!   token-stream-differs                            — any other difference of the main comparison
-//!   R2-cdata-directly-in-integration-point          — finding R2 (see docs/pkg-ref.md)
+//!   R2-cdata-directly-in-integration-point          — finding R2 = F28 (see docs/pkg-ref.md)
+//!   Ftb1-ignored-text-tag-in-template-column-group, Ftb2-frameset-after-select-popped-with-template,
+//!   Ftb4-mglyph-malignmark-in-text-integration-point, Ftb5-frameset-in-integration-point
+//!                                                   — findings of package tb (docs/pkg-tb.md §5), see `known_shapes`
 //!   strict-fails-on-unfinished-tag                 — finding R1 (tag-scanner mode only, see docs/pkg-ref.md)
 //!   end-tags-not-subsequence, strict-failed-unexpectedly, strict-not-failed, ambiguity-at-wrong-place,
 //!   strict-differs-from-nonstrict, chunking-changes-tokens, unexpected-error
@@ -451,31 +454,173 @@ enum Kind {
     ForeignIp,
 }
 
+/// a known shape: html5ever token index where it starts, last token index it can explain (`usize::MAX`:
+/// the two parsers are out of step from there on), tag
+struct Shape {
+    start: usize,
+    end: usize,
+    tag: &'static str,
+}
+
+#[derive(Clone, Copy, PartialEq, Eq)]
+enum TMode {
+    /// "in template" still on top of the template insertion modes
+    Fresh,
+    /// `<col>` seen first: "in column group" with the template as current node — everything but
+    /// whitespace, comments, `col`, `template` is ignored
+    ColGroup,
+    Other,
+}
+
+/// start tags that "in template" hands to "in head" without replacing the template insertion mode
+const TEMPLATE_HEAD_TAGS: [&str; 10] =
+    ["base", "basefont", "bgsound", "link", "meta", "noframes", "script", "style", "template", "title"];
+/// start tags whose "in body" rule sets the frameset-ok flag to "not ok"
+const FRAMESET_NOT_OK_TAGS: [&str; 24] = [
+    "li", "dd", "dt", "pre", "listing", "button", "table", "hr", "area", "br", "embed", "img", "image", "keygen", "wbr",
+    "input", "textarea", "xmp", "iframe", "select", "applet", "marquee", "object", "plaintext",
+];
+const MATH_TEXT_IPS: [&str; 5] = ["mi", "mo", "mn", "ms", "mtext"];
+
+/// last token before the first `</name>` after token `from` (at that end tag both parsers are in step again)
+fn next_end(h: &[HTok], from: usize, name: &str) -> usize {
+    if name == "plaintext" {
+        return usize::MAX;
+    }
+    h.iter()
+        .enumerate()
+        .skip(from + 1)
+        .find_map(|(j, t)| matches!(&t.tok, Tok::End { name: n } if n == name).then_some(j - 1))
+        .unwrap_or(usize::MAX)
+}
+
 /// Known shapes, found by a small open-element scan over html5ever's tags that is exact on well-nested
-/// documents: index of the first token of each shape.
+/// documents (and follows the few tree-builder rules named below on the rest).
 ///  F2: a self-closing `svg` / `math` start tag where HTML content is expected;
 ///  F11: an `svg` / `math` start tag directly inside foreign (non-integration-point) content;
-///  F12: an end tag carrying an integration-point name that closes an HTML element inside an integration point.
-fn known_shapes(h: &[HTok]) -> Vec<(usize, &'static str)> {
+///  F12: an end tag carrying an integration-point name that closes an HTML element inside an integration point;
+///  Ftb1: a text-mode-switching start tag while a `template` whose first table-ish child was `<col>` is the
+///        current node ("in column group", current node not colgroup: ignored); explains up to its end tag;
+///  Ftb2: a `select` opened inside a `template` and popped by `</template>` without `</select>` (lol-html's
+///        guard stays "in select"), then `<frameset>`, then `<script>` / `<textarea>` (not refused by the
+///        guard in that state; ignored "in frameset"); explains up to its end tag;
+///  Ftb4: a non-self-closing `mglyph` / `malignmark` start tag whose parent is a MathML text integration point
+///        (foreign rules in the standard, HTML for lol-html); explains until that element is closed (or, if later,
+///        until the end tag of a text-mode element opened inside it);
+///  Ftb5: a `frameset` start tag inside an integration point that the tree builder accepts (pops the island).
+fn known_shapes(h: &[HTok]) -> Vec<Shape> {
     let mut stack: Vec<(String, Kind)> = vec![];
-    let mut out = vec![];
+    let mut out: Vec<Shape> = vec![];
+    // open HTML templates: (position in `stack`, mode)
+    let mut templates: Vec<(usize, TMode)> = vec![];
+    // lol-html's guard, as far as Ftb2 needs it
+    let mut in_select = false;
+    let mut sel_templates = 0usize;
+    let mut stuck = false;
+    let mut frameset_after_stuck = false;
+    let mut frameset_ok = true;
+    // open mglyph / malignmark of an Ftb4 shape: (position in `stack`, index in `out`, last token index at which
+    // a text-mode element opened inside it ends for lol-html)
+    let mut mglyphs: Vec<(usize, usize, usize)> = vec![];
+
+    fn close_mglyphs(stack_len: usize, i: usize, mglyphs: &mut Vec<(usize, usize, usize)>, out: &mut [Shape]) {
+        while let Some(&(pos, oi, text_end)) = mglyphs.last() {
+            if pos < stack_len {
+                break;
+            }
+            mglyphs.pop();
+            out[oi].end = i.saturating_sub(1).max(text_end);
+        }
+    }
+
     for (i, t) in h.iter().enumerate() {
         match &t.tok {
             Tok::Start { name, attrs, sc } => {
-                let top = stack.last().map(|x| x.1).unwrap_or(Kind::Html);
-                let root = name == "svg" || name == "math";
-                let kind = if root {
+                let n = name.as_str();
+                let (top_name, top) =
+                    stack.last().map(|x| (x.0.as_str(), x.1)).unwrap_or(("", Kind::Html));
+                let in_math_text_ip = top == Kind::ForeignIp && MATH_TEXT_IPS.contains(&top_name);
+                let mglyph = in_math_text_ip && (n == "mglyph" || n == "malignmark");
+                let html_rules = top != Kind::Foreign && !mglyph;
+                let text_mode = TEXT_MODE_TAGS.contains(&n);
+
+                // lol-html's guard looks at names only
+                if !in_select {
+                    if n == "select" {
+                        in_select = true;
+                        sel_templates = templates.len();
+                        stuck = false;
+                        frameset_after_stuck = false;
+                    }
+                } else {
+                    if stuck && frameset_after_stuck && (n == "script" || n == "textarea") {
+                        out.push(Shape { start: i, end: next_end(h, i, n), tag: "Ftb2-frameset-after-select-popped-with-template" });
+                    }
+                    if ["select", "textarea", "input", "keygen", "template"].contains(&n) {
+                        in_select = false;
+                        stuck = false;
+                    } else if n == "frameset" && stuck {
+                        frameset_after_stuck = true;
+                    }
+                }
+
+                // "in column group" with a template as the current node
+                if html_rules {
+                    if let Some(&(pos, TMode::ColGroup)) = templates.last() {
+                        if stack.len() == pos + 1 && n != "template" {
+                            if text_mode {
+                                out.push(Shape { start: i, end: next_end(h, i, n), tag: "Ftb1-ignored-text-tag-in-template-column-group" });
+                            }
+                            continue; // ignored (col: inserted and popped)
+                        }
+                    }
+                    if let Some(last) = templates.last_mut() {
+                        if last.1 == TMode::Fresh && stack.len() == last.0 + 1 {
+                            if n == "col" {
+                                last.1 = TMode::ColGroup;
+                            } else if !TEMPLATE_HEAD_TAGS.contains(&n) {
+                                last.1 = TMode::Other;
+                            }
+                        }
+                    }
+                }
+
+                // frameset inside an integration point, accepted by the tree builder
+                if html_rules && n == "frameset" && stack.iter().any(|x| x.1 == Kind::ForeignIp) {
+                    let accepted = if t.foreign_before { !t.foreign_after } else { frameset_ok };
+                    if accepted {
+                        out.push(Shape { start: i, end: usize::MAX, tag: "Ftb5-frameset-in-integration-point" });
+                        close_mglyphs(0, i, &mut mglyphs, &mut out);
+                        stack.clear();
+                        templates.clear();
+                        continue;
+                    }
+                }
+                if html_rules && FRAMESET_NOT_OK_TAGS.contains(&n) {
+                    frameset_ok = false;
+                }
+                if text_mode {
+                    let e = next_end(h, i, n);
+                    for m in mglyphs.iter_mut() {
+                        m.2 = m.2.max(e);
+                    }
+                }
+
+                let root = n == "svg" || n == "math";
+                let kind = if mglyph {
+                    Kind::Foreign
+                } else if root {
                     if top == Kind::Foreign {
-                        out.push((i, "F11-foreign-root-inside-foreign"));
+                        out.push(Shape { start: i, end: usize::MAX, tag: "F11-foreign-root-inside-foreign" });
                     } else if *sc {
-                        out.push((i, "F2-self-closing-foreign-root"));
+                        out.push(Shape { start: i, end: usize::MAX, tag: "F2-self-closing-foreign-root" });
                     }
                     Kind::Foreign
                 } else if top == Kind::Foreign {
-                    let ip = match name.as_str() {
+                    let ip = match n {
                         "desc" | "title" | "foreignobject" | "mi" | "mo" | "mn" | "ms" | "mtext" => true,
-                        "annotation-xml" => attrs.iter().any(|(n, v)| {
-                            n == "encoding"
+                        "annotation-xml" => attrs.iter().any(|(an, v)| {
+                            an == "encoding"
                                 && (v.eq_ignore_ascii_case("text/html") || v.eq_ignore_ascii_case("application/xhtml+xml"))
                         }),
                         _ => false,
@@ -484,21 +629,50 @@ fn known_shapes(h: &[HTok]) -> Vec<(usize, &'static str)> {
                 } else {
                     Kind::Html
                 };
-                let void = if kind == Kind::Html { HTML_VOID.contains(&name.as_str()) } else { *sc };
+                let void = if kind == Kind::Html { HTML_VOID.contains(&n) } else { *sc };
                 if !void {
                     stack.push((name.clone(), kind));
+                    if mglyph {
+                        out.push(Shape { start: i, end: usize::MAX, tag: "Ftb4-mglyph-malignmark-in-text-integration-point" });
+                        mglyphs.push((stack.len() - 1, out.len() - 1, 0));
+                    }
+                    if n == "template" && kind == Kind::Html {
+                        templates.push((stack.len() - 1, TMode::Fresh));
+                    }
                 }
             }
             Tok::End { name } => {
+                let n = name.as_str();
                 let top = stack.last().map(|x| x.1).unwrap_or(Kind::Html);
+                if let Some(&(pos, TMode::ColGroup)) = templates.last() {
+                    if top != Kind::Foreign && stack.len() == pos + 1 && n != "template" {
+                        continue; // ignored
+                    }
+                }
                 if top == Kind::Html
-                    && INTEGRATION_POINT_NAMES.contains(&name.as_str())
+                    && INTEGRATION_POINT_NAMES.contains(&n)
                     && stack.iter().any(|x| x.1 == Kind::ForeignIp)
                 {
-                    out.push((i, "F12-integration-point-named-end-tag"));
+                    out.push(Shape { start: i, end: usize::MAX, tag: "F12-integration-point-named-end-tag" });
+                }
+                if in_select && n == "select" {
+                    in_select = false;
+                    stuck = false;
                 }
                 if let Some(p) = stack.iter().rposition(|x| x.0 == *name) {
                     stack.truncate(p);
+                    close_mglyphs(stack.len(), i, &mut mglyphs, &mut out);
+                    templates.retain(|(pos, _)| *pos < stack.len());
+                    if in_select && !stuck && templates.len() < sel_templates {
+                        // the template the select was opened in is closed: the select went with it
+                        stuck = true;
+                    }
+                }
+            }
+            Tok::Text(s) => {
+                let top_name = stack.last().map(|x| x.0.as_str()).unwrap_or("");
+                if s.chars().any(|c| !c.is_ascii_whitespace()) && !TEXT_MODE_TAGS.contains(&top_name) {
+                    frameset_ok = false;
                 }
             }
             _ => {}
@@ -507,8 +681,16 @@ fn known_shapes(h: &[HTok]) -> Vec<(usize, &'static str)> {
     out
 }
 
-/// name the shape of a divergence that starts at html5ever token index `div` (known findings first)
-fn classify(h: &[HTok], div: usize, input: &[u8], pair: Option<(&Tok, Option<&Tok>, Option<&Tok>)>) -> &'static str {
+/// name the shape of a divergence whose first differing entry starts at html5ever token `lo` and ends before
+/// token `hi` (known findings first)
+fn classify(
+    h: &[HTok],
+    lo: usize,
+    hi: usize,
+    input: &[u8],
+    pair: Option<(&Tok, Option<&Tok>, Option<&Tok>)>,
+) -> &'static str {
+    let div = hi;
     let upto = &h[..(div + 1).min(h.len())];
     let last_start = upto.iter().rev().skip(1).find_map(|t| match &t.tok {
         Tok::Start { name, .. } => Some(name.as_str()),
@@ -517,8 +699,8 @@ fn classify(h: &[HTok], div: usize, input: &[u8], pair: Option<(&Tok, Option<&To
     if last_start.is_some_and(|n| TEXT_MODE_TAGS.contains(&n)) && has_f1_shape(input) {
         return "F1-attr-value-gt-text-mode";
     }
-    if let Some((_, tag)) = known_shapes(h).into_iter().find(|(i, _)| *i <= div) {
-        return tag;
+    if let Some(s) = known_shapes(h).into_iter().find(|s| s.start <= hi && lo <= s.end) {
+        return s.tag;
     }
     // finding R2: `<![CDATA[` directly inside an integration-point element: a CDATA section for the standard
     // (the adjusted current node is the foreign element), a bogus comment for lol-html
@@ -653,8 +835,11 @@ pub fn run(line: &str) -> String {
                             // the divergent entry may be a text run merged across dropped end tags: look at
                             // every html5ever token up to the start of the next entry
                             let hidx = ph_all.get(da + 1).map(|t| t.1).unwrap_or(hcut.len());
+                            // … and from the token after the last agreeing entry on (end tags are not entries:
+                            // text that html5ever reads as an end tag makes the *next* entry differ)
+                            let lo = if da > 0 { ph_all[da - 1].1 + 1 } else { 0 };
                             let pair = pl_all.get(da).map(|a| (&a.0, ph_all.get(da).map(|t| &t.0), pl_all.get(da + 1).map(|t| &t.0)));
-                            classify(&h, hidx, &bytes, pair)
+                            classify(&h, lo, hidx, &bytes, pair)
                         }
                         None => "token-stream-differs-in-single-kind-mode-only",
                     };
@@ -666,7 +851,7 @@ pub fn run(line: &str) -> String {
                     ));
                 }
             } else if (mode == Mode::All || mode == Mode::El) && !is_subsequence(&end_tags(&l), &end_tags(hcut)) {
-                let tag = match classify(&h, h.len(), &bytes, None) {
+                let tag = match classify(&h, 0, h.len(), &bytes, None) {
                     "token-stream-differs" => "end-tags-not-subsequence",
                     known => known,
                 };
